@@ -31,7 +31,7 @@ KEYS = {
 }
 VALUE_TOKENS = [[], ["true"], ["False"], ["5"], ["-0.5"], ["2.0"], ["foo"],
                 ["[]"], ["none"], ["3", "4"], ["foo", "bar"], ["1e3"],
-                ["-1."], ["2.5e-1", "7"]]
+                ["-1."], ["2.5e-1", "7"], ["0"], ["0.0"]]
 
 
 def _ops():
@@ -721,7 +721,7 @@ def run(ctx):
     acc.counters["states"] = st + p.counters["evaluations"]
     acc.counters["evaluations"] = acc.counters["transitions"]
     acc.rule = (
-        "Part A: BFS to depth %d over %d operations (set with 11 value-token "
+        "Part A: BFS to depth %d over %d operations (set with 16 value-token "
         "lists for 6 representative keys incl. bool/list/int/float/str/"
         "palette, unknown keys, multi-key sets, subset resets, reset all, "
         "hard/soft merge, upgrade with missing keys) from 2 initial settings "
